@@ -44,8 +44,12 @@ ASSUMPTIONS = [
     'as skipped:ill-conditioned) and NaN is only demanded where t0 - t >= 1e-6 t0',
     'angles (two_theta, phi, gamma): absolute error relative to max(|angle|, 0.1 rad)',
     'data operands: first argument for the elastic kernels, (tof, energy) for the inelastic kernels, wavelength for '
-    'Q_elements_from_wavelength and the gravity kernels; for propagate_times and time_at_sample_from_tof (no documented data '
-    'operand) only the two unambiguous demands are made: all operands float32 -> float32, no operand float32 -> float64',
+    'Q_elements_from_wavelength and the gravity kernels; propagate_times and time_at_sample_from_tof: float32 iff ALL numeric '
+    'operands are float32 (the rule the code documents), every other dtype pattern float64; every dtype pattern of these two is '
+    'checked in every tier, with pulse times up to three days',
+    'integer operands span the whole range the unchanged code supports (int32 to 2^31-1, int64 to 1e15 < 2^53) in cells with a '
+    'float64 result; they are capped at sqrt(max) only for the operands the code squares as raw integers (energy_from_wavelength: '
+    'wavelength; inelastic: L2 resp. L1) and kept small in cells with a float32 result (a huge integer overflows float32 there)',
 ]
 TRUSTED = [
     'modelled in Lean (Model/TofKernels.lean): the 9 elastic kernels, time_at_sample_from_tof, one component of '
@@ -62,6 +66,8 @@ MIN_MARGIN = Decimal('0.05')
 VEC_UNITS = list(tk.UNITS['length'])
 #: fraction of the ordinary grid cells that additionally get the call-twice test (the no-op-candidate cells always do)
 TWICE_FRACTION = 0.1
+#: pulse times up to three days
+PULSE_RANGES = {**tk.MODERATE, 'time': (1e-3, 3e5)}
 GRAV_UNITS = ['m/s^2', 'mm/s^2', 'cm/s^2', 'km/s^2']
 NUM_DTYPES = tk.DTYPES
 
@@ -206,13 +212,13 @@ def _specs():
     add(Spec('propagate_times', [Arg('time', 'time'), Arg('wavelength', 'wavelength'), Arg('distance', 'length')],
              CC.propagate_times, [None],
              lambda p, h, mn: {None: p['time'] + p['distance'] * p['wavelength'] * _mn_h(h, mn)},
-             lambda u: {None: u['time']}, 'weak'))
+             lambda u: {None: u['time']}, 'all'))
     add(Spec('time_at_sample_from_tof',
              [Arg('pulse_time', 'time'), Arg('tof', 'time'), Arg('L2', 'length'), Arg('wavelength', 'wavelength', units=['angstrom'])],
              K.time_at_sample_from_tof, [None],
              lambda p, h, mn: {None: p['pulse_time'] + p['tof'] - p['L2'] * p['wavelength'] * _mn_h(h, mn),
                                '_norm': p['pulse_time'] + p['tof'] + p['L2'] * p['wavelength'] * _mn_h(h, mn)},
-             lambda u: {None: u['tof']}, 'weak', tied=[('pulse_time', 'tof')]))
+             lambda u: {None: u['tof']}, 'all', tied=[('pulse_time', 'tof')]))
     return S
 
 
@@ -250,7 +256,11 @@ def draw_cell_values(rng, spec, units, dtypes, n):
             vals[a.name] = [[0.0, -g / s, 0.0]]
         else:
             k = n if a.dims else 1
-            vals[a.name] = [tk.draw_value(rng, a.kind, units[a.name], dtypes[a.name], tk.MODERATE) for _ in range(k)]
+            numeric = {x.name: dtypes[x.name] for x in spec.args if not x.vector}
+            single = expected_dtype(spec.dtype_rule, spec.data, numeric) == {'float32'}
+            rngs = PULSE_RANGES if a.name == 'pulse_time' else tk.MODERATE
+            vals[a.name] = [tk.draw_value(rng, a.kind, units[a.name], dtypes[a.name], rngs,
+                                          tk.int_cap(spec.name, a.name, dtypes[a.name], single)) for _ in range(k)]
     if spec.name.startswith('energy_transfer') and all(dtypes[a.name].startswith('float') for a in spec.args):
         # physically consistent neutrons: tof = t0 + time of the other leg at a final/incident energy 0.2..5 x the given one
         e_name = 'incident_energy' if '_direct_' in spec.name else 'final_energy'
@@ -320,24 +330,20 @@ unsupported_by_scipp = tk.unsupported_by_scipp
 
 
 def expected_dtype(rule, data, dtypes):
-    """-> set of acceptable result dtypes"""
+    """-> set of acceptable result dtypes.  'strict': float32 iff every data operand is float32; 'all'
+    (time_at_sample_from_tof, propagate_times: the code documents "single precision only if all operands are single
+    precision"): float32 iff EVERY numeric operand is float32"""
     if rule == 'float64':
         return {'float64'}
     if rule == 'strict':
         return {'float32'} if all(dtypes[a] == 'float32' for a in data) else {'float64'}
-    num = list(dtypes.values())
-    if all(d == 'float32' for d in num):
-        return {'float32'}
-    if not any(d == 'float32' for d in num):
-        return {'float64'}
-    return {'float32', 'float64'}
+    return {'float32'} if all(d == 'float32' for d in dtypes.values()) else {'float64'}
 
 
 def dtype_class(rule, data, dtypes):
-    """short description of the data operands' dtypes for the violation key"""
-    if rule == 'weak':
-        num = set(dtypes.values())
-        return 'all-f32' if num == {'float32'} else 'no-f32' if 'float32' not in num else 'mixed'
+    """short description of the operands' dtypes for the violation key"""
+    if rule == 'all':
+        return '+'.join(tk.SHORT[d] for d in dtypes.values())
     return '+'.join(tk.SHORT[dtypes[a]] for a in data) if data else 'f64'
 
 
@@ -451,7 +457,7 @@ def check_generic_cell(ctx, spec, units, dtypes, vals, h, mn, report=True):
     return found, res
 
 
-def reexpress(rng, arg_kind, vector, unit_from, units_avail, dtype, values):
+def reexpress(rng, arg_kind, vector, unit_from, units_avail, dtype, values, int_limit=46340):
     """the same physical values in another unit of the grid (None when an integer operand cannot be re-expressed exactly)"""
     others = [u for u in units_avail if u != unit_from]
     if not others:
@@ -464,7 +470,7 @@ def reexpress(rng, arg_kind, vector, unit_from, units_avail, dtype, values):
         if ratio != ratio.to_integral_value():
             return None  # only a finer unit with an integer ratio re-expresses an integer exactly
         new = [int(v) * int(ratio) for v in values]
-        lim = 46340 if dtype == 'int32' else 3_000_000_000
+        lim = int_limit
         if any(abs(x) > lim for x in new):
             return None
         return unit_to, new
@@ -488,7 +494,8 @@ def _check_reexpression(ctx, spec, units, dtypes, vals, res, report=True):
     rng = ctx.rng
     a = rng.choice(spec.args)
     group = next((g for g in spec.tied if a.name in g), (a.name,))
-    re = reexpress(rng, a.kind, a.vector, units[a.name], a.units, dtypes[a.name], vals[a.name])
+    re = reexpress(rng, a.kind, a.vector, units[a.name], a.units, dtypes[a.name], vals[a.name],
+                   tk.int_cap(spec.name, a.name, dtypes[a.name], False) or 46340)
     if re is None:
         if report:
             ctx.count('reexpress:skipped(no exact integer re-expression)')
@@ -502,7 +509,7 @@ def _check_reexpression(ctx, spec, units, dtypes, vals, res, report=True):
         else:
             ratio = tk.SCALE[units[g]] / tk.SCALE[unit_to]
             if dtypes[g].startswith('int'):
-                if ratio != ratio.to_integral_value() or any(abs(int(v) * int(ratio)) > 46340 for v in vals[g]):
+                if ratio != ratio.to_integral_value() or any(abs(int(v) * int(ratio)) > (tk.int_cap(spec.name, g, dtypes[g], False) or 46340) for v in vals[g]):
                     ok = False
                     break
                 units2[g], vals2[g] = unit_to, [int(v) * int(ratio) for v in vals[g]]
@@ -663,7 +670,7 @@ def _oracle_twice(ctx, h, mn):
     for name in tk.ELASTIC:
         kernel = tk.KERNELS[name]
         for units, dtypes in noop_cells_elastic(kernel):
-            values = {a: [tk.draw_value(rng, kind, units[a], dtypes[a], tk.MODERATE) for _ in range(2)] for a, kind in kernel.args}
+            values = draw_elastic_values(rng, kernel, units, dtypes, 2)
             ctx.case(('twice', name, tuple(sorted(units.items())), tuple(sorted(dtypes.items()))), True)
             ctx.count(f'twice:{name}')
             _report(ctx, twice_elastic(kernel, units, dtypes, values))
@@ -672,10 +679,23 @@ def _oracle_twice(ctx, h, mn):
             vals = draw_cell_values(rng, spec, units, dtypes, 2)
             ctx.case(('twice', name, tuple(sorted(units.items())), tuple(sorted(dtypes.items()))), True)
             ctx.count(f'twice:{name}')
-            _report(ctx, twice_spec(spec, units, dtypes, vals))
+            found = twice_spec(spec, units, dtypes, vals)
+            if spec.dtype_rule == 'all':
+                # time_at_sample_from_tof, propagate_times: EVERY dtype pattern of all operands, in every tier, gets the
+                # dtype and value check as well (pulse times up to three days, integers over their whole range)
+                ctx.count(f'dtype-patterns:{name}')
+                f2, _ = check_generic_cell(ctx, spec, units, dtypes, vals, h, mn)
+                found += f2
+            _report(ctx, found)
 
 
 # ---- elastic kernels (modelled in Lean): grid cells ---------------------------------------------------
+
+def draw_elastic_values(rng, kernel, units, dtypes, n):
+    single = tk.expected_dtype(kernel, dtypes) == 'float32'
+    return {a: [tk.draw_value(rng, kind, units[a], dtypes[a], tk.MODERATE, tk.int_cap(kernel.name, a, dtypes[a], single))
+                for _ in range(n)] for a, kind in kernel.args}
+
 
 def elastic_cells(kernel):
     names = [a for a, _ in kernel.args]
@@ -726,7 +746,8 @@ def reexpress_elastic(ctx, kernel, units, dtypes, values, res, h, mn, report=Tru
     found = []
     rng = ctx.rng
     a, kind = rng.choice(kernel.args)
-    re = reexpress(rng, kind, False, units[a], tk.UNITS[kind], dtypes[a], values[a])
+    re = reexpress(rng, kind, False, units[a], tk.UNITS[kind], dtypes[a], values[a],
+                   tk.int_cap(kernel.name, a, dtypes[a], False) or 46340)
     if re is None:
         if report:
             ctx.count('reexpress:skipped(no exact integer re-expression)')
@@ -784,7 +805,7 @@ def correspond(ctx):
         kernel = tk.KERNELS[name]
         cells, _ = _sample_cells(ctx, elastic_cells(kernel), None if not ctx.quick else 1500)
         for units, dtypes in cells:
-            values = {a: [tk.draw_value(rng, kind, units[a], dtypes[a], tk.MODERATE) for _ in range(2)] for a, kind in kernel.args}
+            values = draw_elastic_values(rng, kernel, units, dtypes, 2)
             res = c01.call_kernel(kernel, units, dtypes, '1d', values)
             jobs.append((kernel, units, dtypes, res))
             for elem in res['elems']:
@@ -854,8 +875,10 @@ def _correspond_extra(ctx, h, mn):
     for _ in range(n):
         ut, uL = rng.choice(tk.UNITS['time']), rng.choice(tk.UNITS['length'])
         dts = [rng.choice(tk.DTYPES) for _ in range(4)]
-        vals = [tk.draw_value(rng, kind, u, d, tk.MODERATE) for kind, u, d in
-                (('time', ut, dts[0]), ('time', ut, dts[1]), ('length', uL, dts[2]), ('wavelength', 'angstrom', dts[3]))]
+        single = all(d == 'float32' for d in dts)
+        vals = [tk.draw_value(rng, kind, u, d, r, tk.int_cap('time_at_sample_from_tof', nm, d, single)) for nm, kind, u, d, r in
+                (('pulse_time', 'time', ut, dts[0], PULSE_RANGES), ('tof', 'time', ut, dts[1], tk.MODERATE),
+                 ('L2', 'length', uL, dts[2], tk.MODERATE), ('wavelength', 'wavelength', 'angstrom', dts[3], tk.MODERATE))]
         vs = [tk.make_var([v], u, d, ['x'], [1]) for v, u, d in zip(vals, (ut, ut, uL, 'angstrom'), dts)]
         try:
             r = K.time_at_sample_from_tof(pulse_time=vs[0], tof=vs[1], L2=vs[2], wavelength=vs[3])
@@ -940,7 +963,7 @@ def oracle(ctx, deep):
         cells, full = _sample_cells(ctx, elastic_cells(kernel), limit)
         all_exhaustive &= full
         for units, dtypes in cells:
-            values = {a: [tk.draw_value(rng, kind, units[a], dtypes[a], tk.MODERATE) for _ in range(2)] for a, kind in kernel.args}
+            values = draw_elastic_values(rng, kernel, units, dtypes, 2)
             found, res = check_elastic_cell(ctx, kernel, units, dtypes, values, h, mn)
             ctx.case(('oracle', name, tuple(sorted(units.items())), tuple(sorted(dtypes.items()))), res['ok'])
             ctx.count(f'cells:{name}')
